@@ -773,7 +773,7 @@ NAME_POOL = [
     '" + __import__("os").system("touch CANARY") + "', "\\' + str(open('CANARY','w')) + \\'", "'+str(open('CANARY','w'))+'",
     "');open('CANARY','w');('", "{0}{1}", "%s%d", "{__import__('os').system('touch CANARY')}", "\u00e9.\u00f1", "\u00df", "\u65e5\u672c\u8a9e.txt", "\U0001F600",
     "\u202eevil", "\u200b", "\xa0", "\x7f", "\x01\x02", "\x1b[31m", "a b", " lead", "trail ", "UPPER.TXT", "lower.txt", "Mixed.Case",
-    "None", "True", "0", "-1", "1e3", "lambda", "#hash", "a#b", "''", "'''", '"""', "'", '"', ".hidden", "..dots", "x.tar.gz",
+    "None", "True", "0", "-1", "1e3", "007", "12345", "0x1f", "1_0", "٣", "lambda", "#hash", "a#b", "''", "'''", '"""', "'", '"', ".hidden", "..dots", "x.tar.gz",
     b"\xff\xfe", b"bad\x80utf", "\u0301", "\U000e0001", "\ufeff", "\u2028", "%Name()", "{x}", "a|b", "$(touch CANARY)", "`touch CANARY`",
     "; touch CANARY",
     # payloads without quotes of their own (the name CANARY is built from chr()), shaped for naive quoting schemes
@@ -923,8 +923,45 @@ def gen_cli_case(rng, position):
     return {"kind": "cli", "names": names, "position": position, "expr": expr, "invert": rng.random() < 0.25}
 
 
+def two_roots_values(chk, stats):
+    """Equal relative names in two input directories, different values (size, content-derived): the value that enters the
+    expression for a file is THAT file's value."""
+    cases = [("-s", "%Size()", False), ("-s", "%Size(), %Name()", True), ("-ft", "%Size() > 28", False), ("-s", "(%Size() - 22) * (%Size() - 22)", False)]
+    sizes = {"first/x": 20, "first/y": 30, "second/x": 50, "second/y": 25, "first/sub/z": 40, "second/sub/z": 15}      # every size >= the length of the path written into the file
+    for opt, expr, inv in cases:
+        with Sandbox() as root:
+            for rel, sz in sizes.items():
+                os.makedirs(os.path.dirname(os.path.join(root, rel)), exist_ok=True)
+                with open(os.path.join(root, rel), "w") as fh:
+                    fh.write(rel.ljust(sz, "."))
+            argv = ["-r", opt, expr] + (["-si"] if inv else []) + ["--", "zz%Count(width=3,common)_%Name()", os.path.join(root, "first"), os.path.join(root, "second")]
+            res = cli_driver.run_cli(argv, root, root=root, snapshots=False, trace=False)
+            got = {}
+            for dp, _dn, fns in os.walk(root):
+                for fn in fns:
+                    with open(os.path.join(dp, fn)) as fh:
+                        rel = fh.read().rstrip(".")
+                    got[rel] = fn
+        if opt == "-s":
+            keyf = {"%Size()": lambda r: (sizes[r],), "%Size(), %Name()": lambda r: (sizes[r], os.path.basename(r)),
+                    "(%Size() - 22) * (%Size() - 22)": lambda r: ((sizes[r] - 22) ** 2,)}[expr]
+            order = sorted(sizes, key=keyf, reverse=inv)
+            exp = {r: "zz%03d_%s" % (i, os.path.basename(r)) for i, r in enumerate(order)}
+            ok = got == exp
+        else:
+            sel = {r for r in sizes if sizes[r] > 28}
+            ok = {r for r, fn in got.items() if fn.startswith("zz")} == sel
+            exp = sorted(sel)
+        chk.count(("two-roots-values", opt, expr, inv))
+        stats["two_roots_value_runs"] = stats.get("two_roots_value_runs", 0) + 1
+        if res.status != 0 or not ok:
+            chk.oracle_fail("equal relative names in two input directories, %s %r: status %s, result %r, the true values give %r" % (
+                opt, expr, res.status, sorted(got.items()), exp), {"kind": "two-roots", "argv": argv[:-2] + ["<root>/first", "<root>/second"], "sizes": sizes})
+
+
 def part_cli(chk, rng, n, stats):
     st = {"filter": 0, "sort": 0, "status": {}, "names_with_quote": 0, "names_with_canary_payload": 0, "non_utf8_names": 0}
+    two_roots_values(chk, st)
     spread = [[d, nm, 6 + k] for k, (d, nm) in enumerate([("sub/deep", "a"), ("sub-old", "b"), ("sub.d", "c"), ("sub", "d"), (".", "e"),
                                                             ("sub 1/x", "f"), ("sub/deep", "g'q"), ("sub-old", "h\"q")])]
     fixed = [{"kind": "cli", "names": spread, "position": "sort", "expr": e, "invert": inv}
